@@ -699,3 +699,50 @@ Proof.
     + cbn [hd]. apply Hsub, Hs. left. reflexivity.
 Qed.
 End ModelFacts.
+
+Section SliceStores.
+Context {T : Type} {NT : Num T}.
+(* ------------------------------------------------------------------ slice stores of Gen/Kernels2.v *)
+Lemma mapz_from_length {A} (f : Z -> A -> A) : forall l s, length (mapz_from f s l) = length l.
+Proof. induction l as [|x l IH]; intros s; cbn; [reflexivity|]. rewrite IH. reflexivity. Qed.
+Lemma nth_mapz_from {A} (f : Z -> A -> A) (d : A) : forall l s k, (k < length l)%nat ->
+  nth k (mapz_from f s l) d = f (s + Z.of_nat k)%Z (nth k l d).
+Proof.
+  induction l as [|x l IH]; intros s [|k] Hk; cbn [length mapz_from nth] in *; try lia.
+  - rewrite Z.add_0_r. reflexivity.
+  - rewrite IH by lia. f_equal. lia.
+Qed.
+Lemma bnd_val_0 n : bnd_val (Bnd 0) n = 0%Z.
+Proof. unfold bnd_val, widx. cbn. lia. Qed.
+Lemma bnd_val_nat k n : (k <= n)%nat -> bnd_val (Bnd (Z.of_nat k)) n = Z.of_nat k.
+Proof. intro H. unfold bnd_val. rewrite widx_nat. lia. Qed.
+
+Lemma nth_repeat_lt {A} (v d : A) : forall n k, (k < n)%nat -> nth k (repeat v n) d = v.
+Proof. induction n as [|n IH]; intros [|k] Hk; cbn; try lia; [reflexivity|]. apply IH. lia. Qed.
+Lemma fill1_all (r : list T) v : fill1 r (Sl (Bnd 0) BndEnd) v = repeat v (length r).
+Proof.
+  apply (nth_ext _ _ nzero nzero); [unfold fill1; rewrite mapz_from_length, repeat_length; reflexivity|].
+  intros k Hk. unfold fill1 in *. rewrite mapz_from_length in Hk. rewrite nth_mapz_from by exact Hk.
+  cbn [sel_lo sel_hi]. rewrite bnd_val_0. cbn [bnd_val].
+  replace (0 <=? 0 + Z.of_nat k)%Z with true by (symmetry; apply Z.leb_le; lia).
+  replace (0 + Z.of_nat k <? Z.of_nat (length r))%Z with true by (symmetry; apply Z.ltb_lt; lia).
+  cbn [andb]. symmetry. apply nth_repeat_lt, Hk.
+Qed.
+
+Lemma mapi_from_length {A B} (f : nat -> A -> B) : forall l s, length (mapi_from f s l) = length l.
+Proof. induction l as [|x l IH]; intros s; cbn; [reflexivity|]. rewrite IH. reflexivity. Qed.
+Lemma mapi_from_nth {A B} (f : nat -> A -> B) (d : A) (d' : B) : forall l s i, (i < length l)%nat ->
+  nth i (mapi_from f s l) d' = f (s + i)%nat (nth i l d).
+Proof.
+  induction l as [|x l IH]; intros s [|i] Hi; cbn [length mapi_from nth] in *; try lia.
+  - rewrite Nat.add_0_r. reflexivity.
+  - rewrite IH by lia. f_equal. lia.
+Qed.
+Lemma tabv_length {A} (g : nat -> A) m : length (tabv m g) = m.
+Proof. unfold tabv. rewrite map_length, seq_length. reflexivity. Qed.
+Lemma nth_tabv_lt {A} (g : nat -> A) m k d : (k < m)%nat -> nth k (tabv m g) d = g k.
+Proof.
+  intro Hk. unfold tabv. rewrite (nth_indep _ d (g 0%nat)) by (rewrite map_length, seq_length; exact Hk).
+  rewrite map_nth, seq_nth by exact Hk. reflexivity.
+Qed.
+End SliceStores.
